@@ -306,8 +306,18 @@ func runC19(c *ctx) {
 			c.diffEval("$fromMillis(ms, p)", map[string]interface{}{"ms": ms, "p": p}, "picture-malformed")
 		}
 	}
-	for _, tz := range []string{"", "0000", "+000", "+00000", "00000", "+0a00", "+00:0", "*0100", "+2400", "-1400", "+1400", "+9999", "+ 100", "+-1-1", "é000", "+0530", "-0030", "-0001"} {
+	for _, tz := range []string{"", "0000", "+000", "+00000", "00000", "+0a00", "+00:0", "*0100", "+2400", "-1400", "+1400", "+9999", "+ 100", "+-1-1", "++1+1", "+0060", "-0099", "+1 00", "+01-5", "é000", "+0530", "-0030", "-0001", "+0059", "-2359"} {
 		c.diffEval("$fromMillis(ms, (), tz)", map[string]interface{}{"ms": 1.5e12, "tz": tz}, "offset-malformed")
+		// independent rule (the statement: a fixed offset is +HHMM or -HHMM; anything else is an error)
+		wellFormed := len(tz) == 5 && (tz[0] == '+' || tz[0] == '-') && tz[3] <= '5'
+		for k := 1; k < len(tz) && wellFormed; k++ {
+			if tz[k] < '0' || tz[k] > '9' {
+				wellFormed = false
+			}
+		}
+		if g := goEval("$fromMillis(ms, (), tz)", map[string]interface{}{"ms": 1.5e12, "tz": tz}); tz != "" && (g.err == nil) != wellFormed {
+			c.disagree(Disagreement{Kind: "oracle", Prog: "$fromMillis(ms, (), tz)", Input: map[string]interface{}{"ms": 1.5e12, "tz": tz}, Go: g.outcome, Model: fmt.Sprintf("an offset is a sign and four digits HHMM with MM <= 59: well-formed=%v", wellFormed)})
+		}
 		c.diffEval("$fromMillis(ms, \"[Z] [z] [Z0] [Z0000] [ZN] [ZZ] [Z01:01t]\", tz)", map[string]interface{}{"ms": 1.5e12, "tz": tz}, "offset-styles")
 	}
 	// 3b. every offset of the span x every timezone presentation (military letters exist for -12..+12 whole hours only)
